@@ -98,6 +98,12 @@ impl TokenBucket {
     }
 
     fn refill(&mut self, now: LocalTime) {
+        // N.b. the clock is not guaranteed to be monotonic. If it went backwards, no time has
+        // elapsed as far as the bucket is concerned; `refilled_at` is kept so that the same
+        // interval is never credited twice.
+        if now <= self.refilled_at {
+            return;
+        }
         let elapsed = now.duration_since(self.refilled_at);
         let tokens = elapsed.as_secs() as f64 * self.rate;
 
